@@ -1553,6 +1553,7 @@ class Wtp:
                             # https://en.wikipedia.org/wiki/Help:Template
                             # (but not around unnamed parameters)
                             k, arg = m2.groups()
+                            is_named = True
                             if k.isdigit() and int(k) > 0:
                                 k = int(k)
                             else:
@@ -1563,12 +1564,17 @@ class Wtp:
                         else:
                             k = num
                             num += 1
+                            is_named = False
                         # Expand arguments in the context of the frame where
                         # they are defined.  This makes a difference for
                         # calls to #invoke within a template argument (the
                         # parent frame would be different).
                         self.expand_stack.append("ARGVAL-{}".format(k))
                         arg = expand_recurse(arg, parent, True)
+                        if is_named:
+                            # whitespace produced by the expansion of a named
+                            # value is stripped as well
+                            arg = arg.strip()
                         self.expand_stack.pop()
                         ht[k] = arg
 
